@@ -13,7 +13,7 @@ for cj in sorted(glob.glob("/var/tmp/confirm/C*-mut*.json")):
     os.makedirs(dst, exist_ok=True)
     for f in ("patch.diff", "demo.py", "notes.md"):
         src = os.path.join(rec["dir"], f)
-        if os.path.exists(src):
+        if os.path.exists(src) and os.path.abspath(src) != os.path.abspath(os.path.join(dst, f)):
             shutil.copy2(src, os.path.join(dst, f))
     mp = os.path.join(dst, "meta.json")
     meta = json.load(open(mp)) if os.path.exists(mp) else {}
